@@ -108,7 +108,7 @@ func TestC16Gate(t *testing.T) {
 	theT = t
 	defer removeBumped()
 	col := ev.New("C16", "gate",
-		"complete enumeration: committees of 1, 3 and 7 keys x all 11 contracts of the working tree x signer classes {nobody, a stranger, one committee member, the Alphabet 2n/3+1 multisignature, the committee majority n/2+1} (for NeoFS/Processing: the NeoFSAlphabet role is designated to 4 keys different from the chain committee and the classes are {chain committee majority, one role key, role 2n/3+1, role majority}); the new executable is the same source with the version constant raised, so only the witness decides; refusal => full snapshot of all contracts unchanged; success => new executable installed, version()+1000, a second update to the same version refused",
+		"complete enumeration: committees of 1, 3 and 7 keys x all 11 contracts of the working tree x signer classes {nobody, a stranger, one committee member, the Alphabet 2n/3+1 multisignature, the committee majority n/2+1} (for NeoFS/Processing: the NeoFSAlphabet role is designated to 4 keys different from the chain committee and the classes are {chain committee majority, one role key, role 2n/3+1, role majority}); the new executable is the same source with the version constant raised, so only the witness decides; refusal => full snapshot of all contracts unchanged; success => new executable installed, version()+1000, a second update to the same version refused; for NeoFS/Processing additionally a rotation of the role (4 old keys -> 4 new keys) followed 0 or 1 blocks later by an update from the majority of the dismissed keys (refused) and of the new keys (accepted)",
 		"the same sources compiled with a raised version constant stand for 'a newer release'")
 	defer func() { col.Flush(true) }()
 	nshards, shard := envInt("VERIF_NSHARDS", 1), envInt("VERIF_SHARD_INDEX", 0)
@@ -215,6 +215,72 @@ func TestC16Gate(t *testing.T) {
 			})
 			if !ok {
 				return
+			}
+		}
+	}
+	// rotation of the NeoFSAlphabet role: the role list that decides is the one in force in the block of the invocation
+	for _, name := range []string{"neofs", "processing"} {
+		for _, variant := range []string{"dismissed-keys-first", "new-keys-first"} {
+			for _, delay := range []int{0, 1} {
+				idx++
+				if idx%nshards != shard {
+					continue
+				}
+				h := ev.NewHistory()
+				h.Op("rotation contract=%s variant=%s blocks between re-designation and update=%d", name, variant, delay)
+				ok := runCase(t, col, h, func() {
+					c := chainkit.NewChain(theT, 1, chainkit.Options{})
+					defer c.Close()
+					w := newMainWorldOn(c, false)
+					target := w.neofs
+					if name == "processing" {
+						target = w.proc
+					}
+					mk := func(label string) ([]*keys.PrivateKey, keys.PublicKeys) {
+						var rk []*keys.PrivateKey
+						var pubs keys.PublicKeys
+						for i := 0; i < 4; i++ {
+							k := chainkit.DetKey(fmt.Sprintf("c16-%s-role-%d", label, i))
+							rk = append(rk, k)
+							pubs = append(pubs, k.PublicKey())
+						}
+						return rk, pubs
+					}
+					oldKeys, oldPubs := mk("old")
+					newKeys, newPubs := mk("new")
+					c.DesignateAlphabet(oldPubs)
+					c.Skip(3)
+					c.DesignateAlphabet(newPubs)
+					c.Skip(delay)
+					nv := bumped(name)
+					try := func(who string, ks []*keys.PrivateKey, allowed bool) {
+						pre := c.Snapshot()
+						o := c.Invoke([]neotest.Signer{chainkit.Multisig(3, ks)}, target, "update", updateArgs(name, nv, nil)...)
+						h.Op("update by the majority of %s, %d block(s) after the re-designation -> %s", who, int(c.Height())-0, o)
+						if allowed != o.Halt {
+							fail("C16: update of %s by the majority of %s right after the role was re-designated: expected success=%v, got %s", name, who, allowed, o)
+						}
+						if !o.Halt {
+							if d := chainkit.Diff(pre, c.Snapshot()); len(d) != 0 {
+								fail("C16: refused update of %s by %s changed state: %v", name, who, d)
+							}
+						}
+					}
+					if variant == "dismissed-keys-first" {
+						try("the dismissed role keys", oldKeys, false)
+						try("the new role keys", newKeys, true)
+					} else {
+						try("the new role keys", newKeys, true)
+					}
+					if v, ok := c.Call(nil, target, "version").Int(); !ok || v != curVersion()+1000 {
+						fail("C16: version() of %s after the update is %d", name, v)
+					}
+					h.Mark("role-rotation")
+					h.NonTrivial()
+				})
+				if !ok {
+					return
+				}
 			}
 		}
 	}
